@@ -81,9 +81,27 @@ pub fn canon_op(op: &Op) -> Op {
             before: src.clone(),
             src: src.clone(),
         },
-        // the work in between must not matter: the reference is plain staged compilation
+        // the work in between must not matter: the reference is plain staged compilation -
+        // through the same documents when the operation passes the RQ through JSON (whether a
+        // document reads back as the value it was written from is another property's matter)
+        Op::StagedSplit {
+            src,
+            opts,
+            via_json: true,
+            ..
+        } => Op::StagedSplit {
+            src: src.clone(),
+            between: String::new(),
+            via_json: true,
+            opts: opts.clone(),
+        },
         Op::StagedSplit { src, opts, .. } => Op::Staged {
             src: src.clone(),
+            opts: opts.clone(),
+        },
+        Op::StagedJson { src, opts, .. } => Op::StagedJson {
+            src: src.clone(),
+            between: None,
             opts: opts.clone(),
         },
         o => o.clone(),
